@@ -161,12 +161,27 @@ _STRIPS = {"strip", "rstrip"}
 _STR2STR = {"strip", "rstrip", "lstrip", "lower", "upper", "replace", "expandtabs"}
 
 
+def _mentions_manifest_any(node):
+    return any(_is_manifest(x) for x in ast.walk(node))
+
+
 def manifest_filter(ctx, R, tool):
     """How are the ids listed in the manifest matched against the work map?  Abstract kinds of
     manifest-derived values: TEXT (the whole file as one str), LINE (one raw line, newline attached),
     ID (a stripped line), LINES / IDS (collections of those).  An id may be excluded only by hash /
     equality membership against IDs: `in` on TEXT is a substring test, and raw LINEs never equal an id."""
     env = {}
+    # str.strip / rstrip / lstrip with an argument remove any of the argument's *characters*, not a prefix or suffix: an id
+    # that happens to end in one of them is truncated and no longer matches the work map
+    for c_ in astq.func_calls(tool):
+        if isinstance(c_.func, ast.Attribute) and c_.func.attr in ("strip", "rstrip", "lstrip") and c_.args and not (
+                isinstance(c_.args[0], ast.Constant) and isinstance(c_.args[0].value, str) and not c_.args[0].value.strip()):
+            pm_ = astq.parents(tool)
+            in_manifest_code = any(_mentions_manifest_any(a_) for a_ in astq.ancestors(pm_, c_) if isinstance(a_, (ast.For, ast.With, ast.If)))
+            if in_manifest_code:
+                ctx.bad(R, tool, c_, "a manifest entry is passed through %s: strip with an argument removes every trailing / leading character that occurs in "
+                        "the argument (with the default suffix '.pt' an id such as `spk1_left` becomes `spk1_lef`), so listed utterances are not "
+                        "recognised and are computed and written again" % astq.text(c_)[:60], "ids listed in the manifest are matched exactly")
 
     def kind(e, loc=None):
         loc = loc or {}
